@@ -54,6 +54,11 @@ func refusedFrameOfSize(i, size int) []byte {
 	}
 	pad := strings.Repeat("z", size-c16RefusedBase)
 	id := fmt.Sprintf("f%03d", i%1000)
+	if i%2 == 1 {
+		// the other way of being refused: every member decodes, but together they are no envelope of any kind
+		// (same length: the base differs only in the member names)
+		return []byte(`{"id":"` + id + `","from":"leak@example.com/i","metadata":{"k":"` + pad + `"},"pp":"x@y.z/abcdefg"}` + "\n")
+	}
 	return []byte(`{"id":"` + id + `","from":"leak@example.com/i","method":"get","uri":"/leak","event":"q` + pad + `"}` + "\n")
 }
 
